@@ -79,6 +79,8 @@ ENTRIES = [
     # --- C12: a throttled disk lookup is remembered so that the origin's value is not written over a copy that may already be on disk
     dict(props=["C12"], body=r"re:^foyer::hybrid::cache::HybridCache::get(_or_fetch)?::\{closure#0\}::\{closure#0\}::\{closure#0\}$", inner_call=r"Store::<K, V, S, P>::load$", call=r"atomic::Atomic::<bool>::store$", exact=True, start=("arm", "Throttled"),
          why="Load::Throttled sets the context's throttled flag (read by the post-fetch enqueue guard)"),
+    dict(props=["C12"], body=r"re:^" + re.escape(B) + r"::engine::BlockEngine::destroy::\{closure#0\}::\{closure#0\}::\{closure#0\}$", call=r"manager::BlockStatistics::reset$", exact=True, start="entry",
+         why="destroy() starts every block's next generation with cleared statistics (the probation mark decides whether entries loaded from the block are rewritten)"),
     dict(props=["C12"], body=("foyer_storage::filter::StorageFilter", "with_condition"), call=r"Vec::<T, A>::push$", start="entry", why="a configured admission condition is kept"),
     # --- C08: the key is part of the stored entry
     dict(props=["C08"], body=("foyer_storage::serde::EntrySerializer", "serialize_key"), call=r"code::Code::encode$", start="entry",
